@@ -24,6 +24,16 @@ def specGym [DecidableEq ω] [DecidableEq ι] (ag : Aid) (act : Option α)
   | _, .err er, .error er' => decide (er = er')      -- the manager's rejection is passed on
   | _, _, _ => false
 
+/-- a sequence of gym calls, judged under the caller protocol of the manager (a step before the
+first reset or after `__all__` ends the obligation, as for C01) -/
+def gymLoop [DecidableEq ω] [DecidableEq ι] (ag : Aid) :
+    GSt → List (Option α) → List (Except Err (GymOut ω ι) × Entry α ω ι) → Bool
+  | _, [], [] => true
+  | g, c :: cs, (res, e) :: rest =>
+    if c.isSome && (!g.started || g.over) then true
+    else specGym ag c res e && gymLoop ag (gNext g e) cs rest
+  | _, _, _ => false
+
 /-! ## OpenSpiel -/
 
 structure OSGhost where
